@@ -15,7 +15,8 @@
  *         X<sspec>:<hex>            raw text (written with %s from a String) read with %<sspec>: validates
  *                                   the scanner model on text that no writer produces (overflow, signs, junk)
  * stdout, one line per case:
- *   W<hex of the whole sink content>;<position returned by the writer>|R<v>,<v>,...;<position returned by the reader>
+ *   W<hex of the whole sink content>;<position returned by the writer>;<t>,<t>,...|R<v>,<v>,...;<position returned by the reader>
+ *   t = hex of what snprintf writes for an N item given an argument of the type its directive names
  *   v = i<dec> | f<16 hex> | s<hex>;   an exception is reported as W!<Name> resp. R!<Name>
  */
 #include "Cello.h"
@@ -87,7 +88,7 @@ static int parse_items(char* s) {
       spec_copy(it->pspec, tok + 1, (size_t)(sl - tok - 1));
       spec_copy(it->sspec, sl + 1, (size_t)(co - sl - 1));
       char conv = it->pspec[strlen(it->pspec) - 1];
-      if (conv == 'f' || conv == 'F') { it->vt = 'f'; it->fb = strtoull(co + 1, NULL, 16); }
+      if (strchr("fFeEgG", conv)) { it->vt = 'f'; it->fb = strtoull(co + 1, NULL, 16); }
       else { it->vt = 'i'; it->iv = strtoll(co + 1, NULL, 10); }
     } else if (tok[0] == 'X') {
       char* co = strchr(tok, ':');
@@ -96,10 +97,50 @@ static int parse_items(char* s) {
       strcpy(it->pspec, "s");
       it->bytes = unhex(co + 1);
       char conv = it->sspec[strlen(it->sspec) - 1];
-      it->vt = (conv == 'f' || conv == 'F') ? 'f' : 'i';
+      it->vt = strchr("fFeEgG", conv) ? 'f' : 'i';
     } else return 0;
   }
   return 1;
+}
+
+/* what the C library itself writes for this directive when it is handed an argument of the type the
+ * directive names (the reference for the written text of N items) */
+#include <stddef.h>
+#include <sys/types.h>
+static void libc_text(struct item* it, char* buf, size_t cap) {
+  char f[64];
+  snprintf(f, sizeof f, "%%%s", it->pspec);
+  if (it->vt == 'f') { snprintf(buf, cap, f, dbl_of_bits(it->fb)); return; }
+  size_t n = strlen(it->pspec);
+  char conv = it->pspec[n - 1];
+  int nh = 0, nl = 0; char m = 0;
+  for (int i = (int)n - 2; i >= 0 && strchr("hljztq", it->pspec[i]); i--) {
+    if (it->pspec[i] == 'h') nh++; else if (it->pspec[i] == 'l') nl++; else m = it->pspec[i];
+  }
+  int uns = strchr("uoxX", conv) != NULL;
+  int64_t v = it->iv;
+  if (nh >= 2)      { if (uns) snprintf(buf, cap, f, (unsigned char)v);  else snprintf(buf, cap, f, (signed char)v); }
+  else if (nh == 1) { if (uns) snprintf(buf, cap, f, (unsigned short)v); else snprintf(buf, cap, f, (short)v); }
+  else if (nl == 1) { if (uns) snprintf(buf, cap, f, (unsigned long)v);  else snprintf(buf, cap, f, (long)v); }
+  else if (nl >= 2 || m == 'q') { if (uns) snprintf(buf, cap, f, (unsigned long long)v); else snprintf(buf, cap, f, (long long)v); }
+  else if (m == 'j') { if (uns) snprintf(buf, cap, f, (uintmax_t)v); else snprintf(buf, cap, f, (intmax_t)v); }
+  else if (m == 'z') { if (uns) snprintf(buf, cap, f, (size_t)v);    else snprintf(buf, cap, f, (ssize_t)v); }
+  else if (m == 't') { snprintf(buf, cap, f, (ptrdiff_t)v); }
+  else              { if (uns) snprintf(buf, cap, f, (unsigned int)v);   else snprintf(buf, cap, f, (int)v); }
+}
+
+static void dump_libc_texts(void) {
+  int first = 1;
+  P(";");
+  for (int i = 0; i < nitems; i++) {
+    if (items[i].kind != 'N') continue;
+    char* buf = malloc(8192);
+    libc_text(&items[i], buf, 8192);
+    if (!first) P(",");
+    first = 0;
+    phex(buf, strlen(buf));
+    free(buf);
+  }
 }
 
 static var mkval(struct item* it) {
@@ -218,7 +259,7 @@ static void one_case(char* line) {
     clen = strlen(c_str(sink));
     content = malloc(clen + strlen(rest) + 1);
     memcpy(content, c_str(sink), clen + 1);
-    P("W"); phex(content, clen); P(";%d", wpos);
+    P("W"); phex(content, clen); P(";%d", wpos); dump_libc_texts();
     strcat(content, rest);
     var source = new_raw(String, $S(content));
     try { rpos = read_all(source, start, tg, mode); } catch (e) { rexn = exn_name(e); }
@@ -236,7 +277,7 @@ static void one_case(char* line) {
     content = malloc(clen + 1);
     if (fread(content, 1, clen, fp) != clen) { P("READFAIL"); }
     fclose(fp);
-    P("W"); phex(content, clen); P(";%d", wpos);
+    P("W"); phex(content, clen); P(";%d", wpos); dump_libc_texts();
     fp = fopen(path, "ab"); fwrite(rest, 1, strlen(rest), fp); fclose(fp);
     fp = fopen(path, "rb");
     fseek(fp, start, SEEK_SET);
